@@ -52,6 +52,8 @@ type Node struct {
 	// NonCanonical is set by the lenient parser when the item deviates from the
 	// canonical form (non-zero padding, boolean other than 0/1, over-long big integer).
 	NonCanonical bool
+	// EndMarker: extent mode stopped at a child with tag 000000.
+	EndMarker bool
 }
 
 // Mode selects how strict Parse is.
@@ -166,6 +168,13 @@ func parseItem(b []byte, mode Mode, depth int) (*Node, int, error) {
 	case Structure:
 		rest := val
 		for len(rest) > 0 {
+			if mode == Extent && len(rest) >= 3 && rest[0] == 0 && rest[1] == 0 && rest[2] == 0 {
+				// tag 000000 is the library's documented end-of-data marker: a generic structure
+				// decode stops there and never looks at the rest of the structure's content.
+				n.NonCanonical = true
+				n.EndMarker = true
+				break
+			}
 			k, used, err := parseItem(rest, mode, depth+1)
 			if err != nil {
 				return nil, 0, fmt.Errorf("in %06X: %w", n.Tag, err)
